@@ -21,7 +21,7 @@ from .core import Ctx
 from .tlc import MachineryError, render_cfg, require_ok, run_tlc, sany
 
 ENUM = """---- MODULE {m}_Enum ----
-EXTENDS {m}, Json, TLC
+EXTENDS {m}, Json, TLC, Sequences
 VARIABLE c
 EnumInit == c \\in {cases}
 EnumNext == UNCHANGED c
